@@ -39,6 +39,13 @@ def worlds(tier, seed):
                 k += 1
                 out.append(dict(engines=list(eng), gens=1 + k % 2, Mh=3, seed=s + k % 3, sprout={"kind": sk, "L": 2}, hib=hib, drive="run",
                                 obj=("twofunnel", "sphere_in", "plateau")[k % 3], maximize=bool((k // 5) % 2), request_probe=False))
+    # an objective that is undefined (NaN) on part of the box: NaN/NaN comparisons are settled by Python's
+    # `random`, which the tree constructor seeds as well
+    for eng in [e for e in shapes_h1() + shapes_h2() if not any(v.startswith("CMA") or v == "LOC" for v in e)][:: (1 if tier == "thorough" else 3)]:
+        for sk in ("simple", "nbc"):
+            k += 1
+            out.append(dict(engines=list(eng), gens=1 + k % 2, Mh=3, seed=s + k % 3, sprout={"kind": sk, "L": 2}, hib=bool(k % 2), drive="run", obj=("nanhalf", "nanhole")[k % 2], pop=(6, 10)[(k // 2) % 2],
+                            maximize=bool((k // 3) % 2), request_probe=False))
     return out
 
 
